@@ -111,6 +111,96 @@ theorem psd_scale_single (width dt c : ℝ) (n : ℕ) (x : List ℝ) :
   simp only [Function.comp]
   ring
 
+theorem powSpec_length (x : List ℝ) (n : ℕ) : (powSpec x n).length = n / 2 + 1 := by
+  unfold powSpec rfft; simp
+
+/-- accumulating equally long vectors with `zip`/`+` gives, at every index, the sum of the entries -/
+theorem foldl_zipAdd_getD (vs : List (List ℝ)) (m : ℕ) (hlen : ∀ v ∈ vs, v.length = m) (acc : List ℝ) (hacc : acc.length = m)
+    (k : ℕ) (hk : k < m) :
+    (vs.foldl (fun acc v => (List.zip acc v).map (fun p => p.1 + p.2)) acc).getD k 0
+      = acc.getD k 0 + (vs.map (fun v => v.getD k 0)).sum ∧
+    (vs.foldl (fun acc v => (List.zip acc v).map (fun p => p.1 + p.2)) acc).length = m := by
+  induction vs generalizing acc with
+  | nil => simp [hacc]
+  | cons v vs ih =>
+    have hv : v.length = m := hlen v List.mem_cons_self
+    have hacc' : ((List.zip acc v).map (fun p => p.1 + p.2)).length = m := by simp [hacc, hv]
+    obtain ⟨h1, h2⟩ := ih (fun u hu => hlen u (List.mem_cons_of_mem _ hu)) _ hacc'
+    simp only [List.foldl_cons, List.map_cons, List.sum_cons]
+    refine ⟨?_, h2⟩
+    rw [h1]
+    have : ((List.zip acc v).map (fun p => p.1 + p.2)).getD k 0 = acc.getD k 0 + v.getD k 0 := by
+      have hka : k < acc.length := by omega
+      have hkv : k < v.length := by omega
+      simp [List.getD_eq_getElem?_getD, List.getElem?_eq_getElem, hka, hkv]
+    rw [this]; ring
+
+theorem getLastD_mem {β : Type} (t : List β) (a : β) : t.getLastD a = a ∨ t.getLastD a ∈ t := by
+  induction t generalizing a with
+  | nil => left; rfl
+  | cons b t ih =>
+    rw [List.getLastD_cons]
+    rcases ih b with h | h
+    · right; rw [h]; exact List.mem_cons_self
+    · right; exact List.mem_cons_of_mem _ h
+
+/-- **Welch.** For several equally long windows the density is, bin by bin, the average of the single-window densities. -/
+theorem psd_welch (width dt : ℝ) (n : ℕ) (wins : List (List ℝ)) (L : ℕ) (hne : wins ≠ [])
+    (hL : ∀ x ∈ wins, x.length = L) (k : ℕ) (hk : k < n / 2 + 1) :
+    (psdComponent width n dt wins).getD k 0
+      = (wins.map (fun x => (psdComponent width n dt [x]).getD k 0)).sum / (wins.length : ℝ) := by
+  have hW : (wins.length : ℝ) ≠ 0 := by
+    have : wins.length ≠ 0 := by simpa using hne
+    exact_mod_cast this
+  have hlast : (wins.getLastD []).length = L := by
+    cases wins with
+    | nil => exact absurd rfl hne
+    | cons a t =>
+      rw [List.getLastD_cons]
+      rcases getLastD_mem t a with h | h
+      · rw [h]; exact hL a List.mem_cons_self
+      · exact hL _ (List.mem_cons_of_mem _ h)
+  -- every single-window density
+  have hsingle : ∀ x ∈ wins, (psdComponent width n dt [x]).getD k 0
+      = (powSpec (taper width x) n).getD k 0 / taperPower width L / (L : ℝ) / (1 / dt) * 2 / 1 := by
+    intro x hx
+    rw [psd_single, hL x hx]
+    have hkx : k < (powSpec (taper width x) n).length := by rw [powSpec_length]; exact hk
+    simp [List.getD_eq_getElem?_getD, List.getElem?_map, List.getElem?_eq_getElem hkx]
+  have hsum : (wins.map (fun x => (psdComponent width n dt [x]).getD k 0)).sum
+      = (wins.map (fun x => (powSpec (taper width x) n).getD k 0)).sum / taperPower width L / (L : ℝ) / (1 / dt) * 2 / 1 := by
+    have e : wins.map (fun x => (psdComponent width n dt [x]).getD k 0)
+        = wins.map (fun x => (powSpec (taper width x) n).getD k 0 / taperPower width L / (L : ℝ) / (1 / dt) * 2 / 1) := by
+      apply List.map_congr_left; intro x hx; exact hsingle x hx
+    rw [e]
+    generalize wins = ws
+    induction ws with
+    | nil => simp
+    | cons a t ih => simp only [List.map_cons, List.sum_cons, ih]; ring
+  -- the joint density
+  have hjoint : (psdComponent width n dt wins).getD k 0
+      = (wins.map (fun x => (powSpec (taper width x) n).getD k 0)).sum / taperPower width L / (L : ℝ) / (1 / dt) * 2 / (wins.length : ℝ) := by
+    unfold psdComponent
+    simp only [hlast, ofNat_real, Nat.cast_one, Nat.cast_ofNat, Nat.cast_zero]
+    have hfold := foldl_zipAdd_getD (wins.map (fun x => powSpec (taper width x) n)) (n / 2 + 1)
+      (by intro v hv; simp only [List.mem_map] at hv; obtain ⟨x, _, rfl⟩ := hv; exact powSpec_length _ _)
+      (List.replicate (n / 2 + 1) (0:ℝ)) (by simp) k hk
+    rw [List.foldl_map] at hfold
+    obtain ⟨hf1, hf2⟩ := hfold
+    set acc := List.foldl (fun x y => (List.zip x (powSpec (taper width y) n)).map (fun p => p.1 + p.2))
+      (List.replicate (n / 2 + 1) (0:ℝ)) wins with hacc
+    have hkacc : k < acc.length := by rw [hf2]; exact hk
+    have hrep : (List.replicate (n / 2 + 1) (0:ℝ)).getD k 0 = 0 := by
+      simp [List.getD_eq_getElem?_getD, List.getElem?_replicate, hk]
+    rw [hrep, zero_add, List.map_map] at hf1
+    have hget : (acc.map (fun p => p / taperPower width L / (L : ℝ) / (1 / dt) * 2 / (wins.length : ℝ))).getD k 0
+        = acc.getD k 0 / taperPower width L / (L : ℝ) / (1 / dt) * 2 / (wins.length : ℝ) := by
+      simp [List.getD_eq_getElem?_getD, List.getElem?_map, List.getElem?_eq_getElem hkacc]
+    rw [hget, hf1]
+    rfl
+  rw [hjoint, hsum]
+  field_simp
+
 /-- diffuse-field HVSR is, by definition of the processing chain, `√(S(P_ns + P_ew)/S(P_vt))` of the same windows -/
 theorem diffuse_def (cfg : ProcCfg ℝ) (fft : FftState) (pol : Policy) (recs : List (Rec3 ℝ))
     (st : FftState) (kept : List ℕ) (row : List ℝ) (h : processDiffuse cfg fft pol recs = .ok (st, kept, row)) :
